@@ -393,6 +393,11 @@ def accessorWitness : Top :=
        { name := "get_hid".toList, skip := false, intro := true, isMethod := true, getProp := some "hid".toList,
          sig := { params := [], ret := { ty := .ext false false .other } } }] }
 
+/-- the hypotheses of `C05_accessors` are met by `accessorWitness` -/
+example : (∀ p ∈ accessorWitness.props, ∀ q ∈ accessorWitness.props, p.name = q.name → p = q)
+    ∧ (∀ p ∈ accessorWitness.props, p.intro = false → p.setter = none ∧ p.getter = none)
+    ∧ AccAgree accessorWitness.props accessorWitness.subs :=
+  ⟨by decide, by decide, accAgree_of_accAgreeB (by decide)⟩
 /-- non-vacuity of `C05_accessors` / `C05_accessors_cleared`: `hid` loses its accessors and the
     two methods their set-property or get-property, `title` and its methods keep theirs -/
 example :
